@@ -1,4 +1,412 @@
+//! C12 — decoded content does not depend on how the underlying stream chunks its reads.
+//!
+//! For every corpus document (vnd::corpus, written at run time by the sync noodles writers) and every
+//! reader API, the result log (header, every record rendered with every accessor, virtual positions, error
+//! kind / EOF) obtained through an adversarial byte source must equal the log from the plain slice.
+//!
+//! Harnesses (all E1, all exhaustive within the stated bound):
+//! * `choose`   — `ChunkReader` in `ReadMode::Choose`: every read call is a deviation point with the menu
+//!   {full, 1 byte, up to / one past / one short of the next structural boundary, half, Interrupted};
+//!   all schedules with <= bound deviations. Run on the (doc, api, wrapper) combinations whose fault-free
+//!   run issues <= SMALL read calls.
+//! * `deviate`  — the same menu at every call index of the combinations with more read calls, enumerated as
+//!   free choices (call index, menu entry) through `ReadMode::DeviateAt` — exactly the bound-1 schedule set
+//!   of `choose`, without keeping thousands of replay prefixes alive.
+//! * `windows`  — `ChunkBufRead` (`fill_buf` windows chosen by the explorer) in `ReadMode::Choose`.
+//! * `uniform`  — OneByte / InterruptEvery / Irregular / a fixed pattern, over every wrapper, including the
+//!   > 64 KiB documents.
+
+use std::{
+    collections::HashMap,
+    io::{self, BufRead, Read},
+    sync::{Arc, Mutex},
+};
+
+use vmc::{
+    Chooser, Config, Outcome, Violation,
+    env::{ChunkBufRead, ChunkReader, ReadMode},
+};
+use vnd::{Api, Doc, Format, Opts};
+
+const SMALL: usize = 120;
+const MAX_CALLS: usize = 6000;
+
+#[derive(Clone, Copy, Debug, PartialEq, Eq, Hash)]
+enum Wrap {
+    /// The reader sits directly on the adversary (formats whose reader takes a `Read`).
+    Direct,
+    /// `std::io::BufReader::with_capacity(c, adversary)`.
+    Buf(usize),
+}
+
+impl Wrap {
+    fn name(self) -> String {
+        match self {
+            Wrap::Direct => "direct".into(),
+            Wrap::Buf(c) => format!("bufreader{c}"),
+        }
+    }
+    fn class(self) -> &'static str {
+        match self {
+            Wrap::Direct => "direct",
+            Wrap::Buf(c) if c <= 8 => "bufreader-tiny",
+            Wrap::Buf(c) if c <= 64 => "bufreader-small",
+            Wrap::Buf(_) => "bufreader-large",
+        }
+    }
+}
+
+fn opts(doc: &Doc, api: Api, wrap: Wrap) -> Opts {
+    Opts::for_doc(doc).api(api).capacity(match wrap {
+        Wrap::Direct => None,
+        Wrap::Buf(c) => Some(c),
+    })
+}
+
+fn run_reader(doc: &Doc, api: Api, wrap: Wrap, mode: ReadMode, ch: Option<Chooser>) -> (Vec<String>, Vec<usize>) {
+    let r = ChunkReader::new(doc.bytes.clone(), mode, ch).with_boundaries(doc.boundaries.clone());
+    let env = r.log.clone();
+    let log = vnd::read_log(doc.format, r, &opts(doc, api, wrap));
+    let env = env.lock().unwrap().clone();
+    (log, env)
+}
+
+/// A `BufRead` adapter that records the window lengths `fill_buf` exposed and the amounts consumed.
+struct LogBuf<R> {
+    inner: R,
+    log: Arc<Mutex<Vec<usize>>>,
+}
+
+impl<R: BufRead> Read for LogBuf<R> {
+    fn read(&mut self, buf: &mut [u8]) -> io::Result<usize> {
+        let src = self.fill_buf()?;
+        let n = src.len().min(buf.len());
+        buf[..n].copy_from_slice(&src[..n]);
+        self.consume(n);
+        Ok(n)
+    }
+}
+
+impl<R: BufRead> BufRead for LogBuf<R> {
+    fn fill_buf(&mut self) -> io::Result<&[u8]> {
+        let b = self.inner.fill_buf()?;
+        let mut g = self.log.lock().unwrap();
+        // record a window when it changes (fill_buf is called repeatedly on the same window)
+        if g.last().copied() != Some(b.len()) {
+            g.push(b.len());
+        }
+        Ok(b)
+    }
+    fn consume(&mut self, amt: usize) {
+        self.log.lock().unwrap().push(usize::MAX - amt);
+        self.inner.consume(amt)
+    }
+}
+
+fn line_kind(l: &str) -> &str {
+    let k = l.split([':', '[']).next().unwrap_or("?");
+    if k.len() > 12 { "?" } else { k }
+}
+
+fn short(s: &str) -> String {
+    if s.len() > 300 {
+        let mut e = 300;
+        while !s.is_char_boundary(e) {
+            e -= 1;
+        }
+        format!("{}…", &s[..e])
+    } else {
+        s.to_string()
+    }
+}
+
+/// Compares a log with the specification log; `None` when equal.
+fn compare(spec: &[String], got: &[String]) -> Option<(String, String, String)> {
+    if spec == got {
+        return None;
+    }
+    let i = spec.iter().zip(got.iter()).position(|(a, b)| a != b).unwrap_or(spec.len().min(got.len()));
+    let a = spec.get(i).map(|s| s.as_str()).unwrap_or("<nothing>");
+    let b = got.get(i).map(|s| s.as_str()).unwrap_or("<nothing>");
+    let kind = |l: &str| l.split("kind=").nth(1).and_then(|r| r.split(' ').next()).unwrap_or("?").to_string();
+    let symptom = if vnd::is_end_eof(b) && !vnd::is_end_eof(a) {
+        format!("premature-eof-at-{}", line_kind(a))
+    } else if vnd::is_end_err(b) && !vnd::is_end_err(a) {
+        format!("error-at-{} kind={}", line_kind(a), kind(b))
+    } else if vnd::is_end_err(b) && vnd::is_end_err(a) {
+        format!("different-error kind={}", kind(b))
+    } else if vnd::is_end_err(a) || vnd::is_end_eof(a) {
+        format!("continues-past-end-with-{}", line_kind(b))
+    } else {
+        format!("{}-differs", line_kind(a))
+    };
+    Some((symptom, format!("item {i}: {}", short(a)), format!("item {i}: {}", short(b))))
+}
+
+fn env_summary(env: &[usize]) -> String {
+    let mut s = String::new();
+    let mut i = 0;
+    while i < env.len() && s.len() < 400 {
+        let mut j = i;
+        while j < env.len() && env[j] == env[i] {
+            j += 1;
+        }
+        let v = if env[i] == 0 { "I".to_string() } else { env[i].to_string() };
+        if j - i > 1 {
+            s.push_str(&format!("{v}x{} ", j - i));
+        } else {
+            s.push_str(&format!("{v} "));
+        }
+        i = j;
+    }
+    if i < env.len() {
+        s.push('…');
+    }
+    s
+}
+
+fn violation(doc: &Doc, api: Api, wrap: &str, wrap_class: &str, adversary: &str, env: &[usize], d: (String, String, String)) -> Violation {
+    let (symptom, exp, obs) = d;
+    Violation::new(
+        format!("format={} api={api:?} symptom={symptom}", doc.format),
+        format!(
+            "doc={} ({} bytes, set {}) api={api:?} wrap={wrap} ({wrap_class}) adversary={adversary} read sizes delivered (I = Interrupted): {}; bytes (hex): {}",
+            doc.name,
+            doc.bytes.len(),
+            doc.set,
+            env_summary(env),
+            if doc.bytes.len() <= 1600 { hex_full(&doc.bytes) } else { format!("{}… (regenerate with vnd::corpus)", vmc::hex(&doc.bytes)) }
+        ),
+        format!("same log as from the plain slice; {exp}"),
+        obs,
+    )
+}
+
+fn hex_full(b: &[u8]) -> String {
+    b.iter().map(|x| format!("{x:02x}")).collect()
+}
+
+/// Size of `ChunkReader`'s menu for a transfer of at most `n` bytes at `pos` (not directly after an
+/// `Interrupted`). Mirrors `vmc::env::ChunkReader::menu`; used only to avoid enumerating duplicate entries.
+fn menu_len(pos: usize, n: usize, boundaries: &[usize]) -> usize {
+    let mut m: Vec<Option<usize>> = vec![Some(n)];
+    let mut push = |k: usize| {
+        if k >= 1 && k <= n && !m.contains(&Some(k)) {
+            m.push(Some(k));
+        }
+    };
+    push(1);
+    let i = boundaries.partition_point(|&b| b <= pos);
+    if let Some(&b) = boundaries.get(i) {
+        let d = b - pos;
+        push(d);
+        push(d + 1);
+        if d > 1 {
+            push(d - 1);
+        }
+    }
+    push(n / 2);
+    m.len() + 1
+}
+
+struct Combo {
+    doc: usize,
+    api: Api,
+    wrap: Wrap,
+    /// Sizes delivered in the fault-free (Full) run.
+    sizes: Vec<usize>,
+}
+
 fn main() {
-    println!("MACHINERY-ERROR property=C12 check not built yet");
-    std::process::exit(2);
+    vmc::run("C12", "fault_enumeration", |ctx| {
+        let docs = vnd::corpus(ctx.thorough());
+        let all_caps: Vec<usize> = vec![1, 2, 3, 5, 8, 17, 64, 8192, 65536];
+        let quick_caps: Vec<usize> = vec![1, 2, 3, 5, 8, 17, 64, 8192, 65536];
+        let caps = ctx.by_tier(quick_caps, all_caps);
+        ctx.rule(format!(
+            "corpus documents x reader APIs x wrappers (direct, BufReader capacities {caps:?}, ChunkBufRead windows) x delivery schedules: every schedule with <= bound deviations from full transfers over the read calls of a run at every call index (menu: 1 byte / to, past, short of the next structural boundary / half / Interrupted), plus uniform adversaries; distinct = distinct sequences of transfer sizes the environment delivered"
+        ));
+        ctx.assume("the plain-slice run of the same sync noodles reader is the specification (the property is about independence from delivery, not about decoding correctness)");
+        ctx.assume("std::io::BufReader is correct");
+        ctx.assume("CRAM documents differ byte-wise between processes (std RandomState in the CRAM writer): replay by choice index addresses the same structural position, not necessarily the same byte values");
+
+        // specification logs
+        let mut spec: HashMap<(usize, Api), Arc<Vec<String>>> = HashMap::new();
+        for (i, d) in docs.iter().enumerate() {
+            for &api in Api::all_for(d.format) {
+                let log = vnd::read_log(d.format, &d.bytes[..], &Opts::for_doc(d).api(api));
+                let last = log.last().cloned().unwrap_or_default();
+                let crai_eager = d.format == Format::Crai && api == Api::Eager;
+                if !vnd::is_end_eof(&last) && !crai_eager {
+                    vmc::machinery(format!("corpus document {} does not read cleanly from a plain slice with {api:?}: {last}", d.name));
+                }
+                spec.insert((i, api), Arc::new(log));
+            }
+        }
+
+        // combinations and their fault-free call sequences
+        let mut combos: Vec<Combo> = Vec::new();
+        for (i, d) in docs.iter().enumerate() {
+            let mut wraps: Vec<Wrap> = Vec::new();
+            if !d.format.needs_bufread() {
+                wraps.push(Wrap::Direct);
+            }
+            for &c in &caps {
+                if d.big && c < 64 {
+                    continue;
+                }
+                wraps.push(Wrap::Buf(c));
+            }
+            for &api in Api::all_for(d.format) {
+                for &w in &wraps {
+                    let (log, env) = run_reader(d, api, w, ReadMode::Full, None);
+                    if let Some(diff) = compare(&spec[&(i, api)], &log) {
+                        vmc::machinery(format!("full-transfer run differs from the plain slice for {} {api:?} {w:?}: {diff:?}", d.name));
+                    }
+                    combos.push(Combo { doc: i, api, wrap: w, sizes: env });
+                }
+            }
+        }
+        let small: Vec<usize> = (0..combos.len()).filter(|&i| combos[i].sizes.len() <= SMALL).collect();
+        let large: Vec<usize> = (0..combos.len()).filter(|&i| combos[i].sizes.len() > SMALL && combos[i].sizes.len() <= MAX_CALLS).collect();
+        let skipped: Vec<String> = combos
+            .iter()
+            .filter(|c| c.sizes.len() > MAX_CALLS)
+            .map(|c| format!("{}/{:?}/{}({} calls)", docs[c.doc].name, c.api, c.wrap.name(), c.sizes.len()))
+            .collect();
+        ctx.extra("combinations", vmc::json!({
+            "total": combos.len(), "choose(<=120 calls)": small.len(), "deviate(>120 calls)": large.len(),
+            "only_uniform(>6000 calls)": skipped,
+            "read_calls_per_run_max": combos.iter().map(|c| c.sizes.len()).max(),
+            "documents": docs.len(),
+        }));
+
+        // ---- choose: ReadMode::Choose, deviation bounded
+        let bound = ctx.by_tier(1, 2);
+        {
+            let (docs, combos, spec, small) = (&docs, &combos, &spec, &small);
+            ctx.harness(Config::new("choose", bound), move |ch: &Chooser| -> Outcome {
+                let c = &combos[*ch.pick_free("combo", small)];
+                let d = &docs[c.doc];
+                ch.desc(|| format!("doc={} api={:?} wrap={}", d.name, c.api, c.wrap.name()));
+                let (log, env) = run_reader(d, c.api, c.wrap, ReadMode::Choose, Some(ch.clone()));
+                ch.obs_hash((c.doc, c.api, c.wrap, &env));
+                ch.steps(env.len() as u64);
+                tags(ch, d, &env);
+                match compare(&spec[&(c.doc, c.api)], &log) {
+                    None => Ok(()),
+                    Some(diff) => Err(violation(d, c.api, &c.wrap.name(), c.wrap.class(), "choose", &env, diff)),
+                }
+            });
+        }
+
+        // ---- deviate: the bound-1 schedule set for runs with many read calls, as free choices
+        {
+            let (docs, combos, spec, large) = (&docs, &combos, &spec, &large);
+            ctx.harness(Config::new("deviate", 0), move |ch: &Chooser| -> Outcome {
+                let c = &combos[*ch.pick_free("combo", large)];
+                let d = &docs[c.doc];
+                let k = ch.free("call", c.sizes.len());
+                let pos: usize = c.sizes[..k].iter().sum();
+                let ml = menu_len(pos, c.sizes[k], &d.boundaries);
+                let alt = 1 + ch.free("alt", ml - 1);
+                ch.desc(|| format!("doc={} api={:?} wrap={} call={k} menu-entry={alt}", d.name, c.api, c.wrap.name()));
+                let (log, env) = run_reader(d, c.api, c.wrap, ReadMode::DeviateAt(k as u64, alt), None);
+                ch.obs_hash((c.doc, c.api, c.wrap, &env));
+                ch.steps(env.len() as u64);
+                tags(ch, d, &env);
+                match compare(&spec[&(c.doc, c.api)], &log) {
+                    None => Ok(()),
+                    Some(diff) => Err(violation(d, c.api, &c.wrap.name(), c.wrap.class(), "deviate-at-one-call", &env, diff)),
+                }
+            });
+        }
+
+        // ---- windows: ChunkBufRead
+        {
+            let (docs, spec) = (&docs, &spec);
+            let wbound = ctx.by_tier(2, 3);
+            let idx: Vec<usize> = (0..docs.len()).filter(|&i| !docs[i].big).collect();
+            let modes = [ReadMode::Choose, ReadMode::OneByte, ReadMode::Irregular, ReadMode::Pattern(vec![2, 1, 5, 3]), ReadMode::Pattern(vec![17, 1])];
+            let idx = &idx;
+            let modes = &modes;
+            ctx.harness(Config::new("windows", wbound), move |ch: &Chooser| -> Outcome {
+                let di = *ch.pick_free("doc", idx);
+                let d = &docs[di];
+                let api = *ch.pick_free("api", Api::all_for(d.format));
+                let mode = ch.pick_free("mode", modes).clone();
+                ch.desc(|| format!("doc={} api={api:?} windows={mode:?}", d.name));
+                let chooser = if matches!(mode, ReadMode::Choose) { Some(ch.clone()) } else { None };
+                let adversary = match &mode {
+                    ReadMode::Choose => "choose",
+                    ReadMode::OneByte => "one-byte",
+                    ReadMode::Irregular => "irregular",
+                    _ => "pattern",
+                };
+                let inner = ChunkBufRead::new(d.bytes.clone(), mode.clone(), chooser).with_boundaries(d.boundaries.clone());
+                let wl = Arc::new(Mutex::new(Vec::new()));
+                let r = LogBuf { inner, log: wl.clone() };
+                let log = vnd::read_log_bufread(d.format, r, &Opts::for_doc(d).api(api));
+                let env = wl.lock().unwrap().clone();
+                ch.obs_hash((di, api, &env));
+                ch.steps(env.len() as u64);
+                let windows: Vec<usize> = env.iter().copied().filter(|&x| x < usize::MAX / 2).collect();
+                match compare(&spec[&(di, api)], &log) {
+                    None => Ok(()),
+                    Some(diff) => Err(violation(d, api, "ChunkBufRead", "fill_buf-windows", adversary, &windows, diff)),
+                }
+            });
+        }
+
+        // ---- uniform adversaries
+        {
+            let (docs, combos, spec) = (&docs, &combos, &spec);
+            let modes = [
+                (ReadMode::OneByte, "one-byte"),
+                (ReadMode::InterruptEvery, "interrupt-every"),
+                (ReadMode::Irregular, "irregular"),
+                (ReadMode::Pattern(vec![1, 0, 2, 3, 0, 7, 64, 1]), "pattern"),
+                (ReadMode::Pattern(vec![18, 1, 8, 0, 4096]), "pattern"),
+            ];
+            let modes = &modes;
+            let all: Vec<usize> = (0..combos.len()).collect();
+            let all = &all;
+            ctx.harness(Config::new("uniform", 0), move |ch: &Chooser| -> Outcome {
+                let c = &combos[*ch.pick_free("combo", all)];
+                let d = &docs[c.doc];
+                let (mode, name) = ch.pick_free("mode", modes).clone();
+                ch.desc(|| format!("doc={} api={:?} wrap={} adversary={mode:?}", d.name, c.api, c.wrap.name()));
+                let (log, env) = run_reader(d, c.api, c.wrap, mode, None);
+                ch.obs_hash((c.doc, c.api, c.wrap, &env));
+                ch.steps(env.len() as u64);
+                if d.big {
+                    ch.tag("document > 64 KiB");
+                }
+                match compare(&spec[&(c.doc, c.api)], &log) {
+                    None => Ok(()),
+                    Some(diff) => Err(violation(d, c.api, &c.wrap.name(), c.wrap.class(), name, &env, diff)),
+                }
+            });
+        }
+    });
+}
+
+fn tags(ch: &Chooser, d: &Doc, env: &[usize]) {
+    if env.contains(&0) {
+        ch.tag("Interrupted delivered");
+    }
+    // a transfer that ended exactly on / one past / one short of a structural boundary
+    let mut pos = 0usize;
+    for &n in env {
+        pos += n;
+        if n > 0 {
+            if d.boundaries.binary_search(&pos).is_ok() {
+                ch.tag("transfer ends on a structural boundary");
+            } else if pos > 0 && d.boundaries.binary_search(&(pos - 1)).is_ok() {
+                ch.tag("transfer ends one past a boundary");
+            } else if d.boundaries.binary_search(&(pos + 1)).is_ok() {
+                ch.tag("transfer ends one short of a boundary");
+            }
+        }
+    }
 }
